@@ -44,12 +44,60 @@ READS = ['corr', 'required_impact', 'pretestfit', 'bbtest', 'dwtest', 'aatest', 
          'tbrfit', 'estimate']
 
 
+SUITE_FILES = ['test_tbrmmdiagnostics.py', 'test_tbrmmscore.py', 'test_tbrmmdesign.py', 'test_tbrmatchedmarkets2.py',
+               'test_tbrmatchedmarkets3.py', 'test_heapdict.py']
+
+
 def n_cases(tier):
-  return N_HIST[tier] + N_INSITU[tier]
+  return N_HIST[tier] + N_INSITU[tier] + (len(SUITE_FILES) if tier == 'thorough' else 0)
 
 
 def gen_case(tier, seed, idx):
-  return {'tier': tier, 'seed': seed, 'idx': idx, 'kind': 'history' if idx < N_HIST[tier] else 'insitu'}
+  if idx < N_HIST[tier]:
+    kind = 'history'
+  elif idx < N_HIST[tier] + N_INSITU[tier]:
+    kind = 'insitu'
+  else:
+    kind = 'suite'
+  return {'tier': tier, 'seed': seed, 'idx': idx, 'kind': kind}
+
+
+def run_suite(spec):
+  """The repository's own tests with P-DIAG and P-HEAP on (thorough): a contract that fires there is examined."""
+  import json
+  import os
+  import subprocess
+  import tempfile
+  fname = SUITE_FILES[spec['idx'] - N_HIST[spec['tier']] - N_INSITU[spec['tier']]]
+  repo = bootstrap.REPO_DIR
+  with tempfile.TemporaryDirectory() as td:
+    out = os.path.join(td, 'plugin.json')
+    env = dict(os.environ, MMV_PLUGIN_OUT=out, MMV_REPO_DIR=repo,
+               PYTHONPATH=os.pathsep.join([repo, bootstrap.VERIF_DIR, bootstrap.DEPS_DIR]))
+    subprocess.run(['/venv/bin/python', '-W', 'ignore', '-m', 'pytest', '-q', '-p', 'no:cacheprovider', '-p',
+                    'mmv.pytest_diag_plugin', '--timeout=900', os.path.join('matched_markets', 'tests', fname)],
+                   cwd=repo, env=env, stdout=subprocess.DEVNULL, stderr=subprocess.DEVNULL, timeout=850)
+    try:
+      res = json.load(open(out))
+    except (OSError, ValueError):
+      res = None
+  violations = []
+  counters = {}
+  if res is None:
+    return {'nontrivial': False, 'fp': 'suite-' + fname, 'classes': ['suite'], 'counters': {'suite_runs_unreadable': 1},
+            'violations': [], 'sample': None}
+  counters['suite_invariant_evals'] = int(res['counts'].get('diag_invariant', 0))
+  counters['suite_heap_reads'] = int(res['counts'].get('heap_read', 0))
+  counters['suite_files'] = 1
+  for t in res['stale_tests']:
+    violations.append({'clause': 'invariant-in-suite', 'mech': 'stale-slot:' + '+'.join(sorted(t.get('slots') or ['?'])),
+                       'detail': 'repository test %s trips the cache invariant (slots %s)' % (t['test'], t.get('slots'))})
+  for t in res['heap_alarm_tests']:
+    violations.append({'clause': 'heap-in-suite', 'mech': 'heap-' + str(t['alarm'].get('clause')),
+                       'detail': 'repository test %s: %s' % (t['test'], t['alarm'].get('detail'))})
+  return {'nontrivial': counters['suite_invariant_evals'] > 0, 'fp': 'suite-' + fname, 'classes': ['suite'],
+          'counters': counters, 'violations': violations[:10],
+          'sample': {'kind': 'repository tests under monitors', 'file': fname, 'invariant_evaluations': counters['suite_invariant_evals']}}
 
 
 def prepare(tier):
@@ -246,6 +294,8 @@ def run_insitu(spec, r, g):
 def run_case(spec):
   r, g = util.rngs(PROP, spec['seed'], spec['idx'])
   before = probes.COUNTS['diag_invariant']
+  if spec['kind'] == 'suite':
+    return run_suite(spec)
   rec = run_history(spec, r, g) if spec['kind'] == 'history' else run_insitu(spec, r, g)
   rec.setdefault('counters', {})['diag_invariant'] = probes.COUNTS['diag_invariant'] - before
   return rec
